@@ -196,11 +196,43 @@ def fractions(quick):
     return out
 
 
+def zone_name_task(names):
+    """A date-time whose zone NAME this host cannot map (an official Haystack name without a pytz counterpart here, or an invented
+    one) is still a well-formed value: it decodes to the instant and offset that are written."""
+    import datetime
+    import hszinc as hs
+    st = Stats()
+    want = datetime.datetime(2020, 6, 1, 17, 0, 0, tzinfo=datetime.timezone.utc)
+    for name in names:
+        text = 't:2020-06-01T12:00:00-05:00 ' + name
+        for where, doc in (('cell', {'meta': {'ver': '2.0'}, 'cols': [{'name': 'a'}], 'rows': [{'a': text}]}),
+                           ('grid-meta', {'meta': {'ver': '3.0', 'ts': text}, 'cols': [{'name': 'a'}], 'rows': []}),
+                           ('list', {'meta': {'ver': '3.0'}, 'cols': [{'name': 'a'}], 'rows': [{'a': [text]}]})):
+            for form in ('object', 'str'):
+                st.count('executions')
+                case = {'zone_name': name, 'where': where, 'form': form}
+                try:
+                    g = hs.parse(doc if form == 'object' else json.dumps(doc), mode=hs.MODE_JSON)
+                    v = g[0]['a'] if where == 'cell' else (g.metadata['ts'] if where == 'grid-meta' else g[0]['a'][0])
+                except Exception as e:  # noqa
+                    st.fail('well-formed-json-rejected', {'spellings': 'zone-name-unknown-here', 'exc': type(e).__name__}, case, {'text': text, 'exc': repr(e)[:200]})
+                    continue
+                ok = isinstance(v, datetime.datetime) and v.tzinfo is not None and v == want and v.utcoffset() == datetime.timedelta(hours=-5)
+                st.case(('zone-name', name, where, form), outcome=('zone-name', ok))
+                if not ok:
+                    st.fail('json-decoded-to-other-grid', {'spellings': 'zone-name-unknown-here', 'where': where}, case, {'text': text, 'observed': repr(v)[:200]})
+    return st
+
+
 def run(ctx):
     from ref import selftest
     from mc.explore import pmap, chunks
     selftest.quick_selftest()
     st = Stats()
+    from hszinc import zoneinfo as _zi
+    unmapped = sorted(set(_zi.HAYSTACK_TIMEZONES) - set(_zi.get_tz_map())) + ['Atlantis', 'Not_A_Zone', 'X']
+    for part in pmap(zone_name_task, [(c,) for c in chunks(unmapped, ctx.jobs)], ctx.jobs):
+        st.merge(part)
     fr = fractions(ctx.quick)
     for part in pmap(fraction_task, [(c,) for c in chunks(fr, ctx.jobs * 2)], ctx.jobs):
         st.merge(part)
@@ -221,6 +253,12 @@ def run(ctx):
 
 
 def replay(case, st):
+    if 'zone_name' in case:
+        sub = zone_name_task([case['zone_name']])
+        for f in sub.failures:
+            if f['case'] == case:
+                st.fail(f['symptom'], f['sig'], f['case'], f['detail'])
+        return
     ch = Ch({k: v for k, v in case['ov'].items()})
     _run_case(ch, st, case['base'])
     ch.check_used()
